@@ -18,7 +18,7 @@ GOENV = dict(os.environ, GOFLAGS="-mod=mod", GOPROXY="off", GOSUMDB="off", GOTOO
 
 
 def sh(cmd, **kw):
-    return subprocess.run(cmd, stdout=subprocess.PIPE, stderr=subprocess.STDOUT, text=True, **kw)
+    return subprocess.run(cmd, stdout=subprocess.PIPE, stderr=subprocess.STDOUT, text=True, errors="replace", **kw)
 
 
 def main():
@@ -71,7 +71,9 @@ def main():
         changed = sh(run, cwd=dd, env=GOENV, timeout=900)
         conf["demo_exit_changed"] = changed.returncode
         conf["demo_output_changed"] = changed.stdout[-1500:]
-        ok = conf["builds"] and conf["tests_pass"] and conf["demo_exit_clean"] == 0 and conf["demo_exit_changed"] == 1
+        refactor = "refactor" in (meta.get("kind") or "")
+        want_changed = 0 if refactor else 1
+        ok = conf["builds"] and conf["tests_pass"] and conf["demo_exit_clean"] == 0 and conf["demo_exit_changed"] == want_changed
         print(json.dumps({k2: v for k2, v in conf.items() if not k2.startswith("demo_output")}))
         if not ok:
             print("rejected:", sid)
@@ -90,9 +92,10 @@ def main():
                 os.remove(pj)
         meta_out = {
             "id": sid, "property": meta.get("property"), "summary": meta.get("summary"), "trigger": meta.get("trigger"),
+            "kind": meta.get("kind") or "breaking change", "functions": meta.get("functions"),
             "files": files, "source": "sub-agent (given only the property text and a scratch worktree)",
             "demo": "demo/main.go: go.mod replaces github.com/blues/jsonata-go by the tree under test; exit 1 = property violated, 0 = holds",
-            "confirmed": {"builds": True, "suite": "273 pass, 0 fail (unedited)", "demo_exit_on_changed_tree": 1, "demo_exit_on_clean_tree": 0,
+            "confirmed": {"builds": True, "suite": "273 pass, 0 fail (unedited)", "demo_exit_on_changed_tree": conf["demo_exit_changed"], "demo_exit_on_clean_tree": 0,
                           "demo_output_changed": conf["demo_output_changed"][-800:], "demo_output_clean": conf["demo_output_clean"][-400:]},
         }
         json.dump(meta_out, open(os.path.join(out, "meta.json"), "w"), indent=1, ensure_ascii=False)
